@@ -1,4 +1,4 @@
-CONSTANTS Mode = "b58c"  MaxLen = 0  MaxText = 0  LongZ = 0  LongN = 0  NPay = 174  Rich = TRUE  NPat = 2  NRnd = 0
+CONSTANTS Mode = "b58c"  MaxLen = 0  MaxText = 0  LongZ = 0  LongN = 0  NPay = 187  Rich = TRUE  NPat = 2  NRnd = 0
 SPECIFICATION Spec
 INVARIANTS Guarantee ValidBasesDecode
 CHECK_DEADLOCK FALSE
